@@ -1172,6 +1172,9 @@ func (e *enc) instr(b *ssa.BasicBlock, in ssa.Instruction) {
 	case *ssa.FieldAddr:
 		base := e.locOf(x.X)
 		pt := x.X.Type().Underlying().(*types.Pointer)
+		if base != nil && isCtxStruct(pt.Elem()) {
+			base = nil // the address of a local copy of a rule context: the node itself
+		}
 		if base == nil {
 			if isNodeType(pt) {
 				// embedded base struct of a parser/lexer/context object: same object identity
@@ -1284,6 +1287,11 @@ func (e *enc) instr(b *ssa.BasicBlock, in ssa.Instruction) {
 				return
 			}
 			l := e.locOf(x.X)
+			if l == nil && isCtxStruct(x.Type()) {
+				fr.val[x] = e.value(x.X) // copying a rule context by value: the same tree node
+				e.safety("nil", fmt.Sprintf("(not (= %s 0))", fr.val[x]), x.Pos(), x.String())
+				return
+			}
 			if l == nil {
 				fr.val[x] = e.fresh("ld", e.so.of(x.Type()))
 				return
@@ -1776,6 +1784,9 @@ func (e *enc) makeInterface(x *ssa.MakeInterface) {
 	fr := e.fr
 	if isNodeType(x.X.Type()) || isIface(x.X.Type()) {
 		fr.val[x] = e.value(x.X)
+		if isNodeType(x.X.Type()) {
+			e.candKinds(x.X, fr.val[x]) // remember the static kind of a context converted to a runtime interface
+		}
 		return
 	}
 	// boxing a Go value: an object id whose payload is recoverable by type assertion to the same sort
